@@ -337,3 +337,56 @@ def c12(ctx):
                     trace_module="Trace_C12", sigfn=V.default_sig,
                     assumptions=["TLC/SANY and the JVM", "module Wide for 64-bit nanosecond arithmetic", "Go's time package (instants are logged as seconds since 1900 + nanoseconds)",
                                  "the Comcast flavour carries exactly one grouping byte"])
+
+
+# ---------------------------------------------------------------- C07
+
+@prop("C07", "Trace_C07")
+def c07(ctx):
+    V.mc(ctx, "MC_C07", workers=8)
+    summ = V.gen_traces(ctx, shards=12)
+    V.validate(ctx, "Trace_C07", summ, V.default_sig, par=12)
+    return V.finish(ctx, "model_checking",
+                    rule="MC: all PATs with 0..3 entries over program numbers {0,1,2} x 3 PIDs: section layout, CRC residue, section_length arithmetic, completion predicate, derived views. "
+                         "B3: PATs with 0..42 entries (the single-packet limit) (random 16-bit program numbers, 13-bit PIDs, network entry first/last/absent) carried as payload bytes, as a whole packet (with/without "
+                         "adaptation-field stuffing) and in a stream behind 0..20 packets of other PIDs (or with no PAT / truncated); IsPMT over all 8192 PIDs and the nil-PAT error. "
+                         "TLC first checks that the carrier bytes are the serialisation of the logged abstract PAT (else harness error), then every observation. class = (carrier, #entries, network entry, result)",
+                    trace_module="Trace_C07", sigfn=V.default_sig,
+                    assumptions=["TLC/SANY and the JVM", "Crc (C13) for CRC_32", "program numbers are distinct; payload carriers use pointer_field 0, length >= 13 and never exactly 188 bytes"])
+
+
+# ---------------------------------------------------------------- C06
+
+@prop("C06", "Trace_C06")
+def c06(ctx):
+    V.mc(ctx, "MC_C06", workers=12)
+    summ = V.gen_traces(ctx, shards=12)
+    V.validate(ctx, "Trace_C06", summ, V.default_sig, par=12, timeout=3000)
+    return V.finish(ctx, "model_checking",
+                    rule="MC: small PMTs x pointer_field {0,1,3} x preceding section x stuffing: section arithmetic, CRC residue, accessors, and the closed form of the completion predicate equals "
+                         "Psi!Done on every prefix (false strictly inside a section, true at the end). B3: 17 (68) PMT shapes (0..40 streams, descriptor bodies 0..255, up to the 1021 limit) x "
+                         "pointer_field {0,1,5,100,182} x optional preceding section x stuffing: NewPMT, the done-func on EVERY prefix, ExtractCRC and the psi accessors; and packetisations "
+                         "(a sample (quick) or every (thorough) split point of the payload into two packets, 3/4-packet splits, AF-stuffing and 0xFF-fill styles, interleaved foreign PIDs) through ReadPMT. "
+                         "TLC first checks the logged bytes/packets are the serialisation/carriage of the logged abstract PMT. class = (op, pointer, stream-count bucket or packet count, result)",
+                    trace_module="Trace_C06", sigfn=V.default_sig,
+                    assumptions=["TLC/SANY and the JVM", "Crc (C13)", "descriptor bodies are read through the verif hook psi.VerifDescriptorData (the public API exposes tags and decoders only)",
+                                 "ReadPMT skipping a PMT without streams is modelled as the library's deliberate behaviour",
+                                 "at the boundary between two sections the completion predicate may be true (no predicate can know another section follows)"])
+
+
+# ---------------------------------------------------------------- C14
+
+@prop("C14", "Trace_C14")
+def c14(ctx):
+    V.mc(ctx, "MC_C14", workers=8)
+    summ = V.gen_traces(ctx, shards=12)
+    V.validate(ctx, "Trace_C14", summ, V.default_sig, par=12, timeout=3000)
+    return V.finish(ctx, "model_checking",
+                    rule="MC: Keep/Missing/Remove on PMTs with <= 3 streams x all request lists of length <= 3 over {stream PIDs, absent, PAT PID, PMT PID} incl. duplicates: kept streams, order, "
+                         "well-formed section with zero CRC residue. B3: FilterPMTPacketsToPids on 11 (33) PMT shapes (0..40 streams) x request lists (all subsets and reversed orderings for <= 4 streams, "
+                         "duplicates, absent, PAT/PMT PID, empty) x pointer_field {0,1,5,100} x single/two/multi-packet carriages in both stuffing styles; TLC checks the input carriage, then the error "
+                         "contract (incl. the PIDs named in the error text), output headers, pointer, section bytes, CRC and padding, packet count, inputs untouched; "
+                         "RemoveElementaryStreams/Pids/PIDExists on decoded PMTs. class = (op, stream bucket, request kind, packets, error)",
+                    trace_module="Trace_C14", sigfn=V.default_sig,
+                    assumptions=["TLC/SANY and the JVM", "Pmt/Psi/Crc specs (C06, C13)", "elementary PIDs within a PMT are distinct",
+                                 "the PIDs named by the error are read from the digits of the error text, in order"])
